@@ -653,6 +653,8 @@ c12_fail(const char *clause, const char *fmt, ...)
  * that the log reads like the log of an uninterrupted decode of the same
  * stream.  A call during which the source failed but which returned something
  * else retried the source by itself; it stays as it is. */
+static bool g_fold_enodata; /* family (g): the source ran dry (-ENODATA) and was refilled */
+
 static void
 fold_interruptions(void)
 {
@@ -666,7 +668,7 @@ fold_interruptions(void)
             c.o0 = o0;
             c.off0 = off0;
         }
-        if (c.sfired && !c.kfired && c.rc == c.fcode && (c.rc == -EAGAIN || c.rc == -EINTR)
+        if (c.sfired && !c.kfired && c.rc == c.fcode && (c.rc == -EAGAIN || c.rc == -EINTR || (g_fold_enodata && c.rc == -ENODATA))
             && i + 1 < R.n) {
             carry = true;
             off0 = c.off0;
@@ -1742,7 +1744,8 @@ family_alphabet_decode(const struct sset *ss_octet, const struct sset *ss_chunk)
         }
 }
 
-/* (g) the source interrupts the decoder: -EAGAIN / -EINTR at every source
+/* (g) the source interrupts the decoder: -EAGAIN / -EINTR / -ENODATA (empty
+ * for now, refilled) at every source
  * call position (one interruption; two, also back to back), both modes, both
  * ways to set a context up, octet and chunk drivers; same context, same
  * source afterwards.  The interruption consumed nothing, so the statement
@@ -1781,13 +1784,23 @@ interrupt_case(bool sof, int setup, const unsigned char *st, size_t len, long k1
             mc_fail("C12/source-error-unchanged", "source answered %s during call %d, decode returned %s",
                     errname(c->fcode), i, errname(c->rc));
     }
+    const bool dry = c1 == -ENODATA || (k2 >= 0 && c2 == -ENODATA);
+    g_fold_enodata = true;
     fold_interruptions();
+    g_fold_enodata = false;
     if (R.folded)
         mc_log("%d interrupted call(s) folded into their successors", R.folded);
-    clause_override = "C12/source-interruption-transparent";
-    judge(sof, true, false, st, len, -1);
-    clause_override = NULL;
-    mc_end(fired, k2 >= 0 ? "interrupt-twice"
+    if (dry && R.latched) {
+        /* a decoder that takes -ENODATA for the end of its source for good and
+         * repeats it is owed nothing behind it (see run_decoder) */
+        mc_log("the decoder latched the source's -ENODATA: nothing judged behind it");
+    } else {
+        clause_override = "C12/source-interruption-transparent";
+        judge(sof, true, false, st, len, -1);
+        clause_override = NULL;
+    }
+    mc_end(fired, dry ? (k2 >= 0 ? "source-refilled-twice" : at1 == AT_INSIDE_ESCAPE ? "source-refilled-inside-escape" : "source-refilled")
+           : k2 >= 0 ? "interrupt-twice"
            : at1 == AT_BOUNDARY ? "interrupt-at-frame-boundary"
            : at1 == AT_INSIDE_FRAME ? "interrupt-inside-frame"
            : at1 == AT_INSIDE_ESCAPE ? "interrupt-inside-escape"
@@ -1799,14 +1812,17 @@ family_interrupt(const struct sset *one, const struct sset *two)
 {
     unsigned char st[40];
     size_t len;
-    static const int TC[2] = { -EAGAIN, -EINTR };
+    /* -ENODATA: the source has no octet for now (what the library's own buffer
+     * sources answer when they are empty) and is refilled; the call consumed
+     * nothing, the stream is the same stream */
+    static const int TC[3] = { -EAGAIN, -EINTR, -ENODATA };
     for (int sof = 0; sof < 2; ++sof)
         for (int setup = 0; setup < 2; ++setup) {
             const uint64_t n1 = sset_count(one);
             for (uint64_t sid = 0; sid < n1; ++sid) {
                 sset_get(one, sof, sid, st, &len);
                 for (long k = 0; k <= (long)len; ++k)
-                    for (int ci = 0; ci < 2; ++ci)
+                    for (int ci = 0; ci < 3; ++ci)
                         interrupt_case(sof, setup, st, len, k, TC[ci], -1, 0);
             }
             const uint64_t n2 = sset_count(two);
@@ -1814,8 +1830,8 @@ family_interrupt(const struct sset *one, const struct sset *two)
                 sset_get(two, sof, sid, st, &len);
                 for (long k1 = 0; k1 <= (long)len; ++k1)
                     for (long k2 = k1 + 1; k2 <= (long)len + 1; ++k2)
-                        for (int ci = 0; ci < 4; ++ci)
-                            interrupt_case(sof, setup, st, len, k1, TC[ci & 1], k2, TC[ci >> 1]);
+                        for (int ci = 0; ci < 9; ++ci)
+                            interrupt_case(sof, setup, st, len, k1, TC[ci % 3], k2, TC[ci / 3]);
             }
         }
 }
@@ -1823,8 +1839,10 @@ family_interrupt(const struct sset *one, const struct sset *two)
 /* (h) the encoder in front of a sink that writes short, takes nothing,
  * interrupts or fails, per call position.  Hard error: an error the sink
  * answered is returned (never success, never a code the sink did not answer).
- * -EAGAIN/-EINTR: returned unchanged or retried.  Whenever encode reports
- * success, what reached the sink is a complete encoding of the payload. */
+ * -EAGAIN/-EINTR: returned unchanged or retried.  Behind a zero-length answer
+ * (and no hard error) the encoder may give up with a code of its own.  Whenever
+ * encode reports success, what reached the sink is a complete encoding of the
+ * payload. */
 static void
 script_text(const signed char *sc, int ns, char *buf, size_t n)
 {
@@ -1859,7 +1877,12 @@ judge_scripted_encode(bool sof, bool initfn, const unsigned char *p, size_t n)
                     (E.answered & ANS_BIT(A_EAGAIN)) ? " and answered -EAGAIN" : "",
                     (E.answered & ANS_BIT(A_EINTR)) ? " and answered -EINTR" : "", errname(E.rc));
     } else if (E.rc < 0) {
-        if (!answered_rc)
+        /* behind a zero-length answer (and no hard one) an encoder may give up
+         * on a sink that takes nothing, with a code of its own: the statement
+         * names no code for that (the same rule as in the run family) */
+        if (!answered_rc && (E.answered & ANS_BIT(A_ZERO)))
+            mc_log("encode gave up behind a zero answer with %s", errname(E.rc));
+        else if (!answered_rc)
             mc_fail("C12/encode-succeeds", "encode returned %s, the sink never answered that", errname(E.rc));
     } else {
         judge_complete_encoding(sof, initfn, p, n);
@@ -2163,14 +2186,14 @@ main(int argc, char **argv)
     mc_finish(true, th
               ? "payloads and raw streams of length 0..9 over {41,c0,db,dc,dd}; pairs of payloads <= 4 x {fresh, reused init-function, reused static-initialiser context}; garbage <= 4 x 1-3 frames of payload <= 2, garbage 5-6 x 1-2 frames of payload <= 1; "
                 "encode faults at every driver call (payload <= 5) x {-EIO,-EPIPE,-EAGAIN,-EINTR}; decode faults at every driver call (sink: 4 codes, source: -EIO,-EPIPE) with decoding continued, streams = class strings <= 6 + frame pairs (payload <= 2) + frame triples (payload <= 1); "
-                "source interruptions {-EAGAIN,-EINTR}: one at every source call (class strings <= 7 + frame pairs + triples), two at every pair of source calls (class strings <= 5 + frame pairs + triples), x 2 set-ups; "
+                "source interruptions {-EAGAIN,-EINTR,-ENODATA = empty for now, refilled}: one at every source call (class strings <= 7 + frame pairs + triples), two at every pair of source calls (class strings <= 5 + frame pairs + triples), x 2 set-ups; "
                 "encoder sink scripts: 1 deviation (payload <= 6) and 2 deviations (payload <= 4) over 2n+3 call slots x {short, zero, -EAGAIN, -EINTR, -EIO, -ENODATA}, FIFO blocks 1..8 (payload <= 6); "
                 "runs of 1..8 equal answers {zero (also to a single octet), -EAGAIN, -EINTR} starting at each of the 2n+3 call slots, then everything taken or -EIO once, and a sink that takes nothing for ever from each slot on (payload <= 5), octet and chunk sinks; "
                 "error alphabet (every errno 1..133 and -134,-255,-256,-1000,-4095,-4096,-32768,-32769,-65536,INT_MIN+1,INT_MIN) at every driver call x {octet, chunk drivers}: encode payload <= 4 (source and sink), decode class strings <= 5 (octet) / <= 4 (chunk) + frame pairs and triples of payload <= 1 (sink: all codes, source: all but -EAGAIN/-EINTR) with decoding continued; "
                 "worst-case macro n <= 1100 and 2^k-2..2^k+2 (n <= SIZE_MAX/4) for k <= 62; ESC x all 256 second octets; all 65536 octet pairs, fills/ramps/cycles up to 1024"
               : "payloads and raw streams of length 0..7 over {41,c0,db,dc,dd}; pairs of payloads <= 3 x {fresh, reused init-function, reused static-initialiser context}; garbage <= 3 x (1-2 frames of payload <= 2, 3 frames of payload <= 1); "
                 "encode faults at every driver call (payload <= 3) x {-EIO,-EPIPE,-EAGAIN,-EINTR}; decode faults at every driver call (sink: 4 codes, source: -EIO,-EPIPE) with decoding continued, streams = class strings <= 5 + frame pairs (payload <= 2) + frame triples (payload <= 1); "
-                "source interruptions {-EAGAIN,-EINTR}: one at every source call (class strings <= 6 + frame pairs + triples), two at every pair of source calls (class strings <= 4 + frame pairs of payload <= 1), x 2 set-ups; "
+                "source interruptions {-EAGAIN,-EINTR,-ENODATA = empty for now, refilled}: one at every source call (class strings <= 6 + frame pairs + triples), two at every pair of source calls (class strings <= 4 + frame pairs of payload <= 1), x 2 set-ups; "
                 "encoder sink scripts: 1 deviation (payload <= 4) and 2 deviations (payload <= 3) over 2n+3 call slots x {short, zero, -EAGAIN, -EINTR, -EIO, -ENODATA}, FIFO blocks 1..8 (payload <= 5); "
                 "runs of 1..8 equal answers {zero (also to a single octet), -EAGAIN, -EINTR} starting at each of the 2n+3 call slots, then everything taken or -EIO once, and a sink that takes nothing for ever from each slot on (payload <= 3), octet and chunk sinks; "
                 "error alphabet (every errno 1..133 and -134,-255,-256,-1000,-4095,-4096,-32768,-32769,-65536,INT_MIN+1,INT_MIN) at every driver call x {octet, chunk drivers}: encode payload <= 3 (source and sink), decode class strings <= 4 (octet) / <= 3 (chunk) + frame pairs of payload <= 1 (sink: all codes, source: all but -EAGAIN/-EINTR) with decoding continued; "
